@@ -60,3 +60,43 @@ def mutants(prop, ctx, jobs=16):
                             "not_detected": [(os.path.basename(r[1]), r[2]) for r in weak],
                             "samples": [(os.path.basename(r[1]), r[3][:60]) for r in det[:6]]}
     print("self-validation: %d/%d seeded single-edit regressions of %s detected" % (len(det), len(res), prop))
+
+
+# Positive controls for rules whose expected number of findings is zero: one seeded regression per such rule is applied to a
+# scratch copy on EVERY run (quick tier too) and must be reported, otherwise the rule may be passing vacuously.
+CONTROLS = {
+    "C03": ["score_adjusted_in_push", "query_swaps_table"],
+    "C04": ["hash_written_in_update_phase"],
+    "C06": ["interior_nodes_unchecked_for_speed"],
+    "C13": ["revert_fix_time_arithmetic"],
+    "C14": ["join_under_lock_in_ucinewgame", "isready_takes_lock"],
+    "C15": ["new_unchecked_access_in_eval"],
+    "C17": ["squares_asserted_again"],
+    "C19": ["time_based_tiebreak", "table_iteration_tiebreak", "static_node_counter_in_ordering", "address_in_move_ordering"],
+}
+
+
+def controls(prop, ctx):
+    names = CONTROLS.get(prop)
+    if not names:
+        return
+    sys.path.insert(0, os.path.join(HERE, "tools"))
+    import mutants as M
+    tasks = [(prop, os.path.join(HERE, "mutants", prop, n + ".diff")) for n in names]
+    out = []
+    with ThreadPoolExecutor(max_workers=len(tasks)) as ex:
+        for r in ex.map(lambda t: M.run_one(*t) if os.path.exists(t[1]) else (t[0], t[1], "STALE", "missing"), tasks):
+            out.append(r)
+    rec = []
+    for r in out:
+        name = os.path.basename(r[1])[:-5]
+        rec.append((name, r[2]))
+        if r[2] == "DETECTED":
+            ctx.check("%s.CONTROL" % prop, "positive-control:%s" % name, True, what="seeded regression reported: " + r[3][:80], nontrivial=False)
+        elif r[2] in ("STALE", "BROKEN"):
+            print("CONTROL-%s property=%s control=%s (the tree changed where the control applies; control skipped)" % (r[2], prop, name))
+        else:
+            ctx.check("%s.CONTROL" % prop, "positive-control:%s" % name, False, nontrivial=False,
+                      what="a zero-count rule did not report its positive control (a seeded regression applied to a scratch copy): "
+                           "the rule would pass vacuously", found=r[3][:200])
+    ctx.extra["positive_controls"] = rec
